@@ -17,7 +17,7 @@ for p in props:
         'replay_cmd_template': './check %s --replay {path}' % pid,
         'engine': 'verus-extract' + ('+kani' if pc.get('kani') else ''),
         'level_claimed': {'category': pc.get('level', 'proof'), 'text': pc.get('explanation', ''), 'design_ref': 'DESIGN.md section 6, ' + pid},
-        'level_note': '; '.join(pc.get('assumptions', []) + ['stand-in contracts for bytes/dashmap/atomics/clock are assumed; extraction rules R1-R11']),
+        'level_note': '; '.join(pc.get('assumptions', []) + ['stand-in contracts for bytes/dashmap/atomics/clock/tokio/std text-number functions are assumed; extraction rules R1-R13 (DESIGN 3, 12.2)', 'when the verifier cannot decide (lost anchor, construct outside the subset) the run-time twins of the property statement are run on the real code and a concrete failing input is reported as a VIOLATION; otherwise the result stays UNDECIDED (exit 2)']),
         'technique': pc.get('technique', 'contract-based deductive verification: Verus (Z3) on function bodies extracted from /repo each run, contracts spliced as annotations'),
     })
 m = {
